@@ -94,3 +94,20 @@ def eval_keys(rel, keys):
             except Exception as e:  # a raise is an observation too
                 code[k] = e
     return code
+
+
+def refine_if_marginal(run_case, spec, res):
+    """A periodic case whose only violations are 'marginal' (converging, but
+    below the asymptotic rate on these grids) is repeated once on the next
+    finer pair of grids; a formula error does not converge on any pair."""
+    if res['status'] != 'violated' or spec.get('mode') != 'periodic':
+        return res
+    if spec.get('_refined') or spec['n1'] > 16:
+        return res
+    if not all(str(v['detail'].get('info', '')).endswith('marginal') for v in res['violations']):
+        return res
+    res2 = run_case(dict(spec, n1=2 * spec['n1'], _refined=True))
+    res2['spec'] = spec
+    res2['notes'].append(f"marginal on n1={spec['n1']}: judged on n1={2 * spec['n1']}")
+    res2['monitor']['refined_cases'] = res2['monitor'].get('refined_cases', 0) + 1
+    return res2
